@@ -975,12 +975,26 @@ def c09(tr, acc, case):
     last_bid = {}
     for r in recs:
         last_bid[r["uid"]] = r["bid"]
+    for r in tr.rec.of("enter"):
+        # (a re-run that was started but had not reached collect_events when the run ended still supersedes the earlier bodies)
+        if r["step"] == "gather" and r["bid"] > last_bid.get(r["uid"], -1):
+            last_bid[r["uid"]] = r["bid"]
+    exits = {r["bid"]: r for r in tr.rec.of("exit") if r["step"] == "gather"}
+    result_ticks = defaultdict(list)
+    for t in tr.ticks:
+        if t["tick"] == "TickStepResult" and t["step"] == "gather":
+            result_ticks[t["uid"]].append(t["n"])
     for r in recs:
         acc.hit("collect_call")
         if r["got"] is None:
             continue
         if last_bid[r["uid"]] != r["bid"]:
             acc.note("list_returned_by_a_discarded_optimistic_run")
+            continue
+        ex = exits.get(r["bid"])
+        if ex is None or not str(ex["how"]).startswith("return") or not any(n > ex["n"] for n in result_ticks.get(r["uid"], [])):
+            # the invocation was cut off (run ended / cancelled) before the engine took its outcome in: nothing was committed
+            acc.note("list_returned_to_an_invocation_that_never_completed")
             continue
         acc.hit("collect_returned_list")
         types_ = [g[0] for g in r["got"]]
@@ -1001,7 +1015,9 @@ def c09(tr, acc, case):
             ret_n[t["uid"]] = t["n"]
     final = {}
     for r in recs:
-        final[r["uid"]] = r  # last body of the operation wins (earlier ones were optimistic runs that got re-run)
+        ex = exits.get(r["bid"])
+        if last_bid.get(r["uid"]) == r["bid"] and ex is not None and any(n > ex["n"] for n in result_ticks.get(r["uid"], [])):
+            final[r["uid"]] = r  # last body of the operation wins (earlier ones were optimistic runs that got re-run)
     by_buf = defaultdict(list)
     for uid, r in final.items():
         if uid not in call_n or uid not in ret_n:
